@@ -227,6 +227,28 @@ def check(ctx):
                     ctx.ob("K6", ok=ok, distinct=(n, "ptr"))
                     if not ok:
                         ctx.violation("K6", f"{n}|pointer {ptr}", f"spec {n}", f"at {d} pointer column {ptr} of aggregate {n} is not produced as int ({pk})")
+    if ctx.tier == "thorough":
+        # every calendar day of the supported window is covered by the sample of its interval
+        from staticlib.session import env_fingerprint, parallel_map
+
+        ctx.rule("K-day", "every calendar day from 2015-01-01 to the last parameter entry has the same environment fingerprint (parameters, rounding specs, active implementations) as the first day of its interval, so the per-interval verdicts K0-K6 hold on every day")
+        iv = s.em.intervals(START)
+        days, owner = [], {}
+        for f, l in iv:
+            d = f
+            while d <= l:
+                days.append(d)
+                owner[d] = f
+                d += datetime.timedelta(days=1)
+        fps = parallel_map(ctx.root, env_fingerprint, days, chunksize=64)
+        nbad = 0
+        for d in days:
+            ok = fps[d] == fps[owner[d]]
+            ctx.ob("K-day", ok=ok, distinct=str(owner[d]))
+            if not ok and nbad < 5:
+                nbad += 1
+                ctx.violation("K-day", f"{owner[d]}|{d}", str(d), f"the environment on {d} differs from the one on {owner[d]} although no declared change date lies between them; the per-interval analysis does not cover that day")
+        ctx.extra_cov["calendar_days_fingerprinted"] = len(days)
     for (q, path), (keys, kk) in sorted(dyn_listed.items())[:80]:
         ctx.info(f"data-keyed look-up (not decided): {q}: {path} key kinds {kk} keys {keys}")
     ctx.extra_cov["dates"] = len(dates)
